@@ -58,3 +58,19 @@ Print Assumptions C17_fromZ_is_deinterleave.
 Example C17_example : 4000000000 < 2 ^ 32 /\ toZ 4000000000 123456789 = (interleave 4000000000 123456789, true)
   /\ fromZ (fst (toZ 4000000000 123456789)) = (4000000000, 123456789) /\ snd (toZ (2 ^ 32) 0) = false.
 Proof. vm_compute. repeat split; reflexivity. Qed.
+
+(** ** why the point-index model may address pixels by (x, y) although the code keys them by Morton code:
+    membership in a set keyed by [MustToZ x y] is membership of the address, and getQuadrantZs enumerates, in
+    order, the keys of the model's children (2x + oneIfRight i, 2y + oneIfTop i) *)
+From Coq Require Import ZArith.
+From Texel Require Import Prelude.Base Index.Model Index.ProofsMortonTie.
+Theorem C17_keyed_membership : forall c hot, small c -> Forall small hot ->
+  mem_key (key c) (map key hot) = mem_addr c hot.
+Proof. exact keyed_membership. Qed.
+Print Assumptions C17_keyed_membership.
+
+Theorem C17_children_keys : forall x y, (0 <= x < 2 ^ 31)%Z -> (0 <= y < 2 ^ 31)%Z ->
+  getQuadrantZs (key (x, y)) =
+  map (fun i => Some (key (2 * x + oneIfRight i, 2 * y + oneIfTop i)%Z)) [0; 1; 2; 3]%nat.
+Proof. exact children_keys. Qed.
+Print Assumptions C17_children_keys.
